@@ -838,12 +838,19 @@ def hist_stmt(ex, stream):
 def run(ctx):
     rnd = random.Random(ctx.seed * 1000003 + 16)
     quick = ctx.tier == "quick"
-    ctx.rule = ("seeded histories of VarsManager operations: clean stream = create, fix/free, tie, bound (the order "
-                "config_loader.add_constraints applies them), value operations, then arbitrary interleavings incl. rename/remove "
-                "(length 5-40 quick, up to 200 thorough); known-finding streams F7/F11/F12; one Coq obligation per history "
-                "(all steps compared) + one per sampled trig/bound oracle value; distinct = distinct operation-kind sequences")
+    ctx.rule = ("seeded histories of VarsManager operations executed on the real class. Clean stream = create, fix/free, tie, bound (the order "
+                "config_loader.add_constraints applies them), value operations (set/set_all dict+list/refresh/rp2xy/xy2rp/_all/std_polar/_all/"
+                "standard_complex/get-set round trips incl. AbsPDF.get_params/set_params), then arbitrary interleavings incl. add/fix/free/tie/bound/"
+                "remove_bound/rename_var/remove_var; length 5-40 quick, up to 200 thorough. EXCLUSION RULE of the clean stream (= the model's "
+                "tie_safe, evaluated inside Coq for every clean history): tie requests on real names must name distinct existing non-component names "
+                "touching at most one existing group (no merging: F11); tie requests with cplx=True must name distinct untied complex parameters "
+                "with equal polar flag (no overlapping/chained complex groups: F11/F12); no set_share_r and no set_same on component names of complex "
+                "parameters (F7); a name is freed only if no other free name shares its tf.Variable; rename/remove only untied names; upper-only bounds "
+                "b<=-1 are not generated (Bound cannot be constructed). Known-finding streams F7/F11/F12 contain exactly the excluded tie patterns, each "
+                "headed by fixed minimal reproducers. One Coq obligation per history (all steps compared) + one per sampled trig/bound oracle value; "
+                "distinct = distinct operation-kind sequences and distinct bound cases")
     common.theorem_stage(ctx)
-    plan = [("clean", 200 if quick else 1500), ("F7", 12 if quick else 60), ("F11", 10 if quick else 40), ("F12", 10 if quick else 40)]
+    plan = [("clean", 200 if quick else 1000), ("F7", 12 if quick else 60), ("F11", 10 if quick else 40), ("F12", 10 if quick else 40)]
     cases, meta, trig, bcalls = [], {}, [], []
     obs_counts = {}
     still_fails = {}
@@ -892,7 +899,7 @@ def run(ctx):
             if quick:
                 length = rnd.randrange(5, 41)
             else:
-                length = rnd.randrange(5, 41) if k % 3 else rnd.randrange(40, 201)
+                length = rnd.randrange(5, 41) if k % 4 else rnd.randrange(40, 201)
             try:
                 ex = GENS[stream](rnd, length)
             except Exception as e:
